@@ -64,5 +64,19 @@ DeletionJudgement(res) ==
   ELSE IF res.err[1] # "Parse" THEN <<"rejection is not Error::Parse", ToString(res.err)>>
   ELSE <<>>
 
+\* C07: the result of a call after any history on the same thread equals the result on a fresh thread
+HistoryJudgement(fresh, after) ==
+  IF fresh.outcome \notin Outcomes \/ after.outcome \notin Outcomes THEN <<"outcome is not Ok or a structured Error", fresh.outcome, after.outcome>>
+  ELSE IF ~SameResult(fresh, after) THEN <<"result depends on what the thread did before", fresh.outcome, after.outcome, ToString(fresh.err), ToString(after.err)>>
+  ELSE <<>>
+
+\* C19: a call running concurrently with others returns what it returns alone; its hook-event
+\* projection (the thread's own sequence of parser-state events) is the solo one as well
+ConcurrencyJudgement(solo, conc) ==
+  IF solo.outcome \notin Outcomes \/ conc.outcome \notin Outcomes THEN <<"outcome is not Ok or a structured Error", solo.outcome, conc.outcome>>
+  ELSE IF ~SameResult(solo, conc) THEN <<"concurrent result differs from the solo result", solo.outcome, conc.outcome>>
+  ELSE IF solo.events # conc.events THEN <<"thread's parser-state events differ from the solo run">>
+  ELSE <<>>
+
 Typed(calls) == {i \in 1..Len(calls) : calls[i].res.outcome \notin Outcomes}
 =============================================================================
